@@ -18,6 +18,7 @@ import (
 func init() {
 	commands["lexstream-record"] = lexstreamRecord
 	commands["advance-replay"] = advanceReplay
+	commands["posadd-replay"] = posAddReplay
 }
 
 func charsOf(in string) [][]int {
@@ -264,6 +265,44 @@ func advanceReplay(args []string) error {
 			bad++
 			if bad <= 20 {
 				fmt.Printf("MISMATCH\t%s\tAdvance(%q) from %s gives %d:%d:%d, specification %s\n", sc.Text(), span, p[3], pos.Offset, pos.Line, pos.Column, p[4])
+			}
+		}
+	}
+	fmt.Printf("DONE\t%d\t%d\n", n, bad)
+	return nil
+}
+
+// posadd-replay <file>: lines "off:line:col|off:line:col|off:line:col" = p, q, the specification's Add(p, q); applies the real
+// Position.Add (the filename of the receiver must survive).
+func posAddReplay(args []string) error {
+	f, err := os.Open(args[0])
+	if err != nil {
+		return err
+	}
+	defer f.Close()
+	sc := bufio.NewScanner(f)
+	n, bad := 0, 0
+	parse := func(s string) lexer.Position {
+		p := strings.Split(s, ":")
+		a, _ := strconv.Atoi(p[0])
+		b, _ := strconv.Atoi(p[1])
+		c, _ := strconv.Atoi(p[2])
+		return lexer.Position{Offset: a, Line: b, Column: c}
+	}
+	for sc.Scan() {
+		p := strings.Split(sc.Text(), "|")
+		if len(p) != 3 {
+			continue
+		}
+		pp, q, want := parse(p[0]), parse(p[1]), parse(p[2])
+		pp.Filename, want.Filename = "outer.x", "outer.x"
+		q.Filename = "inner.y"
+		got := pp.Add(q)
+		n++
+		if got != want {
+			bad++
+			if bad <= 20 {
+				fmt.Printf("MISMATCH\t%s\tPosition %s .Add(%s) gives %s %d:%d:%d, specification %s\n", sc.Text(), p[0], p[1], got.Filename, got.Offset, got.Line, got.Column, p[2])
 			}
 		}
 	}
